@@ -174,6 +174,20 @@ func genFirstPackets(r *spec.Rand, authn string) []firstPacket {
 		// truncated: remaining length says more than is sent, then the tail follows
 		mal(fmt.Sprintf("body cut to %d bytes", i), base[:i])
 	}
+	// well-framed short CONNECTs: the fixed header announces exactly the first k body bytes (the
+	// decoder sees a complete packet that ends inside a field), for every k
+	body := base[2:]
+	afterWill := 6 + 1 + 1 + 2 + (2 + 3) + (2 + 8) + (2 + 1) // body bytes up to and including the will message
+	afterUser := afterWill + 2 + 4
+	for k := 0; k < len(body); k++ {
+		mal(fmt.Sprintf("framed to its first %d body bytes", k), append([]byte{0x10, byte(k)}, body[:k]...))
+		if k == afterWill || k == afterUser {
+			// the packet ends where a credential string whose flag is set should begin: MQTT 3.1 told
+			// servers to allow that ("the Remaining Length takes precedence over the flag"), and the
+			// library applies that rule to both protocol levels; accepted or refused, both are taken
+			fps[len(fps)-1].either = true
+		}
+	}
 	short := append([]byte{}, base...)
 	short[1] -= 3
 	mal("remaining length 3 too small", short)
